@@ -32,10 +32,10 @@ def procOk (c : Cfg) (src : Nat) (lib : Option File) (lock : Option Nat) (pr : P
   match pr.pc with
   | .wroteTemp => pr.temp = some ⟨src, true⟩
   | .renamed => Fresh src lib
-  | .loading => Fresh src lib
-  | .done (.ok v) => v = src
-  | .done (.err e) => e = .timeout ∨ e = .compile
-  | .waiting _ => c.variant = .orig → lock = none → Fresh src lib
+  | .loading => c.safe → Fresh src lib
+  | .done (.ok v) => c.safe → v = src ∧ Fresh src lib
+  | .done (.err e) => e ≠ .partialLib ∧ (c.safe → e = .timeout ∨ (e = .compile ∧ c.mayFail = true))
+  | .waiting _ => c.safe → c.variant = .orig → lock = none → Fresh src lib
   | .failed => c.mayFail = true
   | _ => True
 
@@ -45,18 +45,21 @@ structure Inv (c : Cfg) (s : State) : Prop where
 
 theorem procOk_mono {c : Cfg} {src : Nat} {lib lib' : Option File} {lock lock' : Option Nat} {pr : Proc}
     (hf : Fresh src lib → Fresh src lib')
-    (hl : c.variant = .orig → lock' = none → lock = none ∨ Fresh src lib')
+    (hl : c.safe → c.variant = .orig → lock' = none → lock = none ∨ Fresh src lib')
     (h : procOk c src lib lock pr) : procOk c src lib' lock' pr := by
   obtain ⟨pc, temp⟩ := pr
   cases pc with
   | waiting k =>
-    intro hv hn
-    rcases hl hv hn with h1 | h1
-    · exact hf (h hv h1)
+    intro hs hv hn
+    rcases hl hs hv hn with h1 | h1
+    · exact hf (h hs hv h1)
     · exact h1
   | renamed => exact hf h
-  | loading => exact hf h
-  | done r => cases r <;> exact h
+  | loading => exact fun hs => hf (h hs)
+  | done r =>
+    cases r with
+    | ok v => exact fun hs => ⟨(h hs).1, hf (h hs).2⟩
+    | err e => exact h
   | _ => exact h
 
 /-- Updating caller `p` and the shared files preserves the invariant when the new caller state is
@@ -66,7 +69,7 @@ theorem inv_update {c : Cfg} {s : State} {p : Nat} {pr pr' : Proc} {lib' : Optio
     (hinv : Inv c s) (hp : s.procs[p]? = some pr)
     (hlib : ∀ f, lib' = some f → f.complete = true)
     (hf : Fresh s.src s.lib → Fresh s.src lib')
-    (hl : c.variant = .orig → lock' = none → s.lock = none ∨ Fresh s.src lib')
+    (hl : c.safe → c.variant = .orig → lock' = none → s.lock = none ∨ Fresh s.src lib')
     (hnew : procOk c s.src lib' lock' pr') :
     Inv c ({ s with lib := lib', lock := lock' }.setProc p pr') := by
   have hp' : ({ s with lib := lib', lock := lock' } : State).procs[p]? = some pr := hp
@@ -83,12 +86,436 @@ theorem inv_update_local {c : Cfg} {s : State} {p : Nat} {pr pr' : Proc}
     (hinv : Inv c s) (hp : s.procs[p]? = some pr)
     (hnew : procOk c s.src s.lib s.lock pr') : Inv c (s.setProc p pr') := by
   have := inv_update (c := c) (s := s) (p := p) (pr := pr) (pr' := pr') (lib' := s.lib) (lock' := s.lock)
-    hinv hp hinv.libOk id (fun _ h => Or.inl h) hnew
+    hinv hp hinv.libOk id (fun _ _ h => Or.inl h) hnew
   simpa using this
 
 theorem step_src {c : Cfg} {s s' : State} {p : Nat} {a : Act} (h : step c s p a = some s') : s'.src = s.src := by
   unfold step at h
   repeat' split at h
   all_goals (cases h <;> rfl)
+
+
+theorem step_inv {c : Cfg} {s s' : State} {p : Nat} {a : Act}
+    (hinv : Inv c s) (h : step c s p a = some s') : Inv c s' := by
+  unfold step at h
+  split at h
+  · cases h
+  · rename_i pr hp
+    have hok := hinv.procs p pr hp
+    obtain ⟨pc, temp⟩ := pr
+    cases a
+    case check =>
+      cases pc <;> try (simp at h; done)
+      simp only [Option.some.injEq] at h; subst h
+      apply inv_update_local hinv hp
+      by_cases hfr : Fresh s.src s.lib
+      · simp only [hfr, if_true]; exact fun _ => hfr
+      · simp only [hfr, if_false]; trivial
+    case tryLock =>
+      cases pc <;> try (simp at h; done)
+      simp only at h
+      split at h
+      · simp only [Option.some.injEq] at h; subst h
+        exact inv_update (lib' := s.lib) (lock' := some p) hinv hp hinv.libOk id (by simp) trivial
+      · rename_i o hl
+        simp only [Option.some.injEq] at h; subst h
+        apply inv_update_local hinv hp
+        intro _ _ hn; rw [hl] at hn; cases hn
+    case compileBegin =>
+      cases pc <;> try (simp at h; done)
+      simp only [Option.some.injEq] at h; subst h
+      exact inv_update_local hinv hp trivial
+    case compileFinish =>
+      cases pc <;> try (simp at h; done)
+      simp only [Option.some.injEq] at h; subst h
+      exact inv_update_local hinv hp rfl
+    case compileFail =>
+      cases pc <;> try (simp at h; done)
+      simp only at h
+      split at h
+      · rename_i hm
+        simp only [Option.some.injEq] at h; subst h
+        exact inv_update_local hinv hp hm
+      · cases h
+    case rename =>
+      cases pc <;> try (simp at h; done)
+      simp only at h
+      have ht : temp = some ⟨s.src, true⟩ := hok
+      subst ht
+      simp only [Option.some.injEq] at h; subst h
+      have hfr : Fresh s.src (some ⟨s.src, true⟩) := ⟨_, rfl, rfl⟩
+      exact inv_update (lib' := some ⟨s.src, true⟩) (lock' := s.lock) hinv hp
+        (by intro f hf; cases hf; rfl) (fun _ => hfr) (fun _ _ h => Or.inl h) hfr
+    case unlock =>
+      cases pc <;> try (simp at h; done)
+      · simp only [Option.some.injEq] at h; subst h
+        have hfr : Fresh s.src s.lib := hok
+        exact inv_update (lib' := s.lib) (lock' := none) hinv hp hinv.libOk id (fun _ _ _ => Or.inr hfr)
+          (fun _ => hfr)
+      · simp only [Option.some.injEq] at h; subst h
+        have hm : c.mayFail = true := hok
+        have hv : c.safe → c.variant = .recheck := by
+          intro hs
+          rcases hs with h1 | h1
+          · rw [h1] at hm; cases hm
+          · exact h1
+        exact inv_update (lib' := s.lib) (lock' := none) hinv hp hinv.libOk id
+          (fun hs ho => by rw [hv hs] at ho; cases ho) ⟨by simp, fun _ => Or.inr ⟨rfl, hm⟩⟩
+    case poll =>
+      cases pc <;> try (simp at h; done)
+      rename_i k
+      simp only at h
+      split at h
+      · rename_i hl
+        split at h
+        · rename_i hv
+          simp only [Option.some.injEq] at h; subst h
+          apply inv_update_local hinv hp
+          exact fun hs => hok hs hv hl
+        · simp only [Option.some.injEq] at h; subst h
+          exact inv_update_local hinv hp trivial
+      · rename_i o hl
+        split at h
+        · simp only [Option.some.injEq] at h; subst h
+          apply inv_update_local hinv hp
+          intro _ _ hn; rw [hl] at hn; cases hn
+        · split at h
+          · simp only [Option.some.injEq] at h; subst h
+            exact inv_update_local hinv hp ⟨by simp, fun _ => Or.inl rfl⟩
+          · rename_i hv
+            simp only [Option.some.injEq] at h; subst h
+            exact inv_update (lib' := s.lib) (lock' := none) hinv hp hinv.libOk id
+              (fun _ ho => by rw [hv] at ho; cases ho) trivial
+    case load =>
+      cases pc <;> try (simp at h; done)
+      have hfr : c.safe → Fresh s.src s.lib := hok
+      simp only at h
+      split at h
+      · rename_i hn
+        simp only [Option.some.injEq] at h; subst h
+        apply inv_update_local hinv hp
+        refine ⟨by simp, ?_⟩
+        intro hs
+        obtain ⟨g, hg, _⟩ := hfr hs
+        rw [hg] at hn; cases hn
+      · rename_i f hf
+        have hc := hinv.libOk f hf
+        simp only [hc, if_true, Option.some.injEq] at h; subst h
+        apply inv_update_local hinv hp
+        intro hs
+        obtain ⟨g, hg, hgv⟩ := hfr hs
+        have hfg : g = f := by rw [hg] at hf; exact Option.some.inj hf
+        rw [hfg] at hgv hg
+        exact ⟨hgv, f, hg, hgv⟩
+    case crash =>
+      simp only at h
+      split at h
+      · cases h
+      · simp only [Option.some.injEq] at h; subst h
+        exact inv_update_local hinv hp trivial
+
+theorem reach_inv {c : Cfg} {s t : State} (hinv : Inv c s) (h : Reach c s t) : Inv c t := by
+  induction h with
+  | refl => exact hinv
+  | tail p a _ hstep ih => exact step_inv ih hstep
+
+theorem reach_src {c : Cfg} {s t : State} (h : Reach c s t) : t.src = s.src := by
+  induction h with
+  | refl => rfl
+  | tail p a _ hstep ih => rw [step_src hstep, ih]
+
+theorem init_inv {c : Cfg} {s : State} (hi : Init s) : Inv c s := by
+  refine ⟨hi.libComplete, ?_⟩
+  intro q pr hq
+  have := hi.allStart q pr hq
+  obtain ⟨pc, temp⟩ := pr
+  simp only at this; subst this
+  trivial
+
+
+/-! ## Mutual exclusion (unchanged-tree variant) -/
+
+def Pc.holder : Pc → Bool
+  | .haveLock | .compiling | .wroteTemp | .renamed | .failed => true
+  | _ => false
+
+/-- Every caller in a lock-holding pc is the owner recorded in the lock. -/
+def MInv (s : State) : Prop :=
+  ∀ (q : Nat) (pr : Proc), s.procs[q]? = some pr → pr.pc.holder = true → s.lock = some q
+
+theorem minv_update {s : State} {p : Nat} {pr pr' : Proc} {lib' : Option File} {lock' : Option Nat}
+    (hinv : MInv s) (hp : s.procs[p]? = some pr)
+    (hnew : pr'.pc.holder = true → lock' = some p)
+    (hl : ∀ q, q ≠ p → s.lock = some q → lock' = some q) :
+    MInv ({ s with lib := lib', lock := lock' }.setProc p pr') := by
+  have hp' : ({ s with lib := lib', lock := lock' } : State).procs[p]? = some pr := hp
+  intro q prq hq hh
+  rw [getElem?_setProc pr' q hp'] at hq
+  simp only [setProc_lock]
+  by_cases hqp : q = p
+  · simp [hqp] at hq; subst hq; subst hqp; exact hnew hh
+  · simp [hqp] at hq
+    exact hl q hqp (hinv q prq hq hh)
+
+theorem minv_update_local {s : State} {p : Nat} {pr pr' : Proc}
+    (hinv : MInv s) (hp : s.procs[p]? = some pr)
+    (hnew : pr'.pc.holder = true → s.lock = some p) : MInv (s.setProc p pr') := by
+  have := minv_update (lib' := s.lib) (lock' := s.lock) hinv hp hnew (fun _ _ h => h)
+  simpa using this
+
+theorem step_minv {c : Cfg} (hv : c.variant = .orig) {s s' : State} {p : Nat} {a : Act}
+    (hinv : MInv s) (h : step c s p a = some s') : MInv s' := by
+  unfold step at h
+  split at h
+  · cases h
+  · rename_i pr hp
+    have hown := hinv p pr hp
+    obtain ⟨pc, temp⟩ := pr
+    cases a
+    case check =>
+      cases pc <;> try (simp at h; done)
+      simp only [Option.some.injEq] at h; subst h
+      apply minv_update_local hinv hp
+      by_cases hfr : Fresh s.src s.lib <;> simp [hfr, Pc.holder]
+    case tryLock =>
+      cases pc <;> try (simp at h; done)
+      simp only at h
+      split at h
+      · rename_i hl
+        simp only [Option.some.injEq] at h; subst h
+        exact minv_update (lib' := s.lib) (lock' := some p) hinv hp (fun _ => rfl)
+          (fun q _ hq => by rw [hl] at hq; cases hq)
+      · simp only [Option.some.injEq] at h; subst h
+        exact minv_update_local hinv hp (by simp [Pc.holder])
+    case compileBegin =>
+      cases pc <;> try (simp at h; done)
+      simp only [Option.some.injEq] at h; subst h
+      exact minv_update_local hinv hp (fun _ => hown rfl)
+    case compileFinish =>
+      cases pc <;> try (simp at h; done)
+      simp only [Option.some.injEq] at h; subst h
+      exact minv_update_local hinv hp (fun _ => hown rfl)
+    case compileFail =>
+      cases pc <;> try (simp at h; done)
+      simp only at h
+      split at h
+      · simp only [Option.some.injEq] at h; subst h
+        exact minv_update_local hinv hp (fun _ => hown rfl)
+      · cases h
+    case rename =>
+      cases pc <;> try (simp at h; done)
+      simp only at h
+      split at h
+      · rename_i _ f
+        simp only [Option.some.injEq] at h; subst h
+        exact minv_update (lib' := some f) (lock' := s.lock) hinv hp (fun _ => hown rfl) (fun _ _ h => h)
+      · simp only [Option.some.injEq] at h; subst h
+        exact minv_update_local hinv hp (fun _ => hown rfl)
+    case unlock =>
+      have hrel : ∀ q, q ≠ p → s.lock = some q → (none : Option Nat) = some q := by
+        intro q hq hl
+        have : pc.holder = true → s.lock = some p := hown
+        cases pc <;> try (simp at h; done)
+        all_goals (rw [this rfl] at hl; cases hl; exact absurd rfl hq)
+      cases pc <;> try (simp at h; done)
+      · simp only [Option.some.injEq] at h; subst h
+        exact minv_update (lib' := s.lib) (lock' := none) hinv hp (by simp [Pc.holder]) hrel
+      · simp only [Option.some.injEq] at h; subst h
+        exact minv_update (lib' := s.lib) (lock' := none) hinv hp (by simp [Pc.holder]) hrel
+    case poll =>
+      cases pc <;> try (simp at h; done)
+      simp only [hv] at h
+      split at h
+      · simp only [Option.some.injEq] at h; subst h
+        exact minv_update_local hinv hp (by simp [Pc.holder])
+      · split at h
+        · simp only [Option.some.injEq] at h; subst h
+          exact minv_update_local hinv hp (by simp [Pc.holder])
+        · simp only [Option.some.injEq] at h; subst h
+          exact minv_update_local hinv hp (by simp [Pc.holder])
+    case load =>
+      cases pc <;> try (simp at h; done)
+      simp only at h
+      split at h
+      · simp only [Option.some.injEq] at h; subst h
+        exact minv_update_local hinv hp (by simp [Pc.holder])
+      · split at h
+        · simp only [Option.some.injEq] at h; subst h
+          exact minv_update_local hinv hp (by simp [Pc.holder])
+        · simp only [Option.some.injEq] at h; subst h
+          exact minv_update_local hinv hp (by simp [Pc.holder])
+    case crash =>
+      simp only at h
+      split at h
+      · cases h
+      · simp only [Option.some.injEq] at h; subst h
+        exact minv_update_local hinv hp (by simp [Pc.holder])
+
+theorem reach_minv {c : Cfg} (hv : c.variant = .orig) {s t : State} (hinv : MInv s) (h : Reach c s t) : MInv t := by
+  induction h with
+  | refl => exact hinv
+  | tail p a _ hstep ih => exact step_minv hv ih hstep
+
+theorem init_minv {s : State} (hi : Init s) : MInv s := by
+  intro q pr hq hh
+  have := hi.allStart q pr hq
+  rw [this] at hh; cases hh
+
+
+/-! ## A lock whose owner is gone (unchanged-tree variant) -/
+
+def Pc.stuckOk : Pc → Bool
+  | .start | .needLock | .waiting _ | .dead => true
+  | .done (.err .timeout) => true
+  | _ => false
+
+/-- The lock exists, the library is not up to date, and nobody is in a lock-holding or loading pc. -/
+structure Stuck (s : State) : Prop where
+  locked : ∃ q, s.lock = some q
+  stale : ¬ Fresh s.src s.lib
+  pcs : ∀ (p : Nat) (pr : Proc), s.procs[p]? = some pr → pr.pc.stuckOk = true
+
+theorem stuck_update_local {s : State} {p : Nat} {pr pr' : Proc}
+    (hst : Stuck s) (hp : s.procs[p]? = some pr) (hnew : pr'.pc.stuckOk = true) : Stuck (s.setProc p pr') := by
+  refine ⟨hst.locked, hst.stale, ?_⟩
+  intro q prq hq
+  rw [getElem?_setProc pr' q hp] at hq
+  by_cases hqp : q = p
+  · simp [hqp] at hq; subst hq; exact hnew
+  · simp [hqp] at hq; exact hst.pcs q prq hq
+
+theorem step_stuck {c : Cfg} (hv : c.variant = .orig) {s s' : State} {p : Nat} {a : Act}
+    (hst : Stuck s) (h : step c s p a = some s') : Stuck s' := by
+  obtain ⟨o, hlock⟩ := hst.locked
+  unfold step at h
+  split at h
+  · cases h
+  · rename_i pr hp
+    have hpc := hst.pcs p pr hp
+    obtain ⟨pc, temp⟩ := pr
+    cases a
+    case check =>
+      cases pc <;> try (simp at h; done)
+      simp only [hst.stale, if_false, Option.some.injEq] at h; subst h
+      exact stuck_update_local hst hp rfl
+    case tryLock =>
+      cases pc <;> try (simp at h; done)
+      simp only [hlock, Option.some.injEq] at h; subst h
+      exact stuck_update_local hst hp rfl
+    case poll =>
+      cases pc <;> try (simp at h; done)
+      simp only [hlock, hv] at h
+      split at h
+      · simp only [Option.some.injEq] at h; subst h
+        exact stuck_update_local hst hp rfl
+      · simp only [Option.some.injEq] at h; subst h
+        exact stuck_update_local hst hp rfl
+    case crash =>
+      simp only at h
+      split at h
+      · cases h
+      · simp only [Option.some.injEq] at h; subst h
+        exact stuck_update_local hst hp rfl
+    all_goals (cases pc <;> first | (simp at h; done) | (simp [Pc.stuckOk] at hpc; done))
+
+theorem reach_stuck {c : Cfg} (hv : c.variant = .orig) {s t : State} (hst : Stuck s) (h : Reach c s t) : Stuck t := by
+  induction h with
+  | refl => exact hst
+  | tail p a _ hstep ih => exact step_stuck hv ih hstep
+
+/-! ## Termination measure (unchanged-tree variant) -/
+
+theorem sum_map_set {α : Type} (f : α → Nat) : ∀ (l : List α) (p : Nat) (x y : α), l[p]? = some x →
+    ((l.set p y).map f).sum + f x = (l.map f).sum + f y
+  | [], p, x, y, h => by simp at h
+  | a :: l, 0, x, y, h => by
+    simp at h; subst h
+    simp only [List.set_cons_zero, List.map_cons, List.sum_cons]; omega
+  | a :: l, p + 1, x, y, h => by
+    simp at h
+    have := sum_map_set f l p x y h
+    simp only [List.set_cons_succ, List.map_cons, List.sum_cons]; omega
+
+theorem measure_setProc {c : Cfg} {s : State} {p : Nat} {pr pr' : Proc} (hp : s.procs[p]? = some pr) :
+    measure c (s.setProc p pr') + rank c pr.pc = measure c s + rank c pr'.pc := by
+  unfold measure State.setProc
+  exact sum_map_set (fun pr => rank c pr.pc) s.procs p pr pr' hp
+
+theorem measure_setProc_lt {c : Cfg} {s : State} {p : Nat} {pr pr' : Proc} (hp : s.procs[p]? = some pr)
+    (h : rank c pr'.pc < rank c pr.pc) : measure c (s.setProc p pr') < measure c s := by
+  have := measure_setProc (c := c) (pr' := pr') hp
+  omega
+
+theorem step_decreases {c : Cfg} (hv : c.variant = .orig) {s s' : State} {p : Nat} {a : Act}
+    (h : step c s p a = some s') : measure c s' < measure c s := by
+  unfold step at h
+  split at h
+  · cases h
+  · rename_i pr hp
+    obtain ⟨pc, temp⟩ := pr
+    cases a <;> cases pc <;> try (simp at h; done)
+    all_goals simp only [hv] at h
+    all_goals repeat' split at h
+    all_goals first
+      | (cases h; done)
+      | (simp [Pc.finished] at *; done)
+      | (simp only [Option.some.injEq] at h; subst h
+         first
+           | (apply measure_setProc_lt hp; simp [rank]; done)
+           | (apply measure_setProc_lt hp; simp [rank]; omega)
+           | (apply measure_setProc_lt (s := { s with lock := _ }) hp; simp [rank]; done)
+           | (apply measure_setProc_lt (s := { s with lock := _ }) hp; simp [rank]; omega)
+           | (apply measure_setProc_lt (s := { s with lib := _ }) hp; simp [rank]; done))
+
+theorem run_length {c : Cfg} (hv : c.variant = .orig) : ∀ (sched : List (Nat × Act)) (s t : State),
+    run c s sched = some t → sched.length + measure c t ≤ measure c s
+  | [], s, t, h => by simp [run] at h; subst h; simp
+  | (p, a) :: rest, s, t, h => by
+    simp only [run] at h
+    split at h
+    · cases h
+    · rename_i s' hs'
+      have h1 := step_decreases hv hs'
+      have h2 := run_length hv rest s' t h
+      simp only [List.length_cons]; omega
+
+/-- A caller that has not finished can always take its next protocol step (no caller ever blocks
+on another one: waiting is polling). -/
+theorem next_enabled (c : Cfg) (s : State) (p : Nat) (pr : Proc) (hp : s.procs[p]? = some pr)
+    (hf : pr.pc.finished = false) : ∃ a, a ∈ actsAt c pr.pc ∧ a ≠ Act.crash ∧ (step c s p a).isSome = true := by
+  obtain ⟨pc, temp⟩ := pr
+  cases pc
+  case start => exact ⟨.check, by simp [actsAt], by simp, by simp [step, hp]⟩
+  case needLock =>
+    cases hl : s.lock
+    · exact ⟨.tryLock, by simp [actsAt], by simp, by simp [step, hp, hl]⟩
+    · exact ⟨.tryLock, by simp [actsAt], by simp, by simp [step, hp, hl]⟩
+  case haveLock => exact ⟨.compileBegin, by simp [actsAt], by simp, by simp [step, hp]⟩
+  case compiling => exact ⟨.compileFinish, by simp [actsAt]; split <;> simp, by simp, by simp [step, hp]⟩
+  case wroteTemp =>
+    cases temp
+    · exact ⟨.rename, by simp [actsAt], by simp, by simp [step, hp]⟩
+    · exact ⟨.rename, by simp [actsAt], by simp, by simp [step, hp]⟩
+  case renamed => exact ⟨.unlock, by simp [actsAt], by simp, by simp [step, hp]⟩
+  case failed => exact ⟨.unlock, by simp [actsAt], by simp, by simp [step, hp]⟩
+  case waiting k =>
+    cases hl : s.lock
+    · cases hv : c.variant
+      · exact ⟨.poll, by simp [actsAt], by simp, by simp [step, hp, hl, hv]⟩
+      · exact ⟨.poll, by simp [actsAt], by simp, by simp [step, hp, hl, hv]⟩
+    · by_cases hk : k < c.K
+      · exact ⟨.poll, by simp [actsAt], by simp, by simp [step, hp, hl, hk]⟩
+      · cases hv : c.variant
+        · exact ⟨.poll, by simp [actsAt], by simp, by simp [step, hp, hl, hk, hv]⟩
+        · exact ⟨.poll, by simp [actsAt], by simp, by simp [step, hp, hl, hk, hv]⟩
+  case loading =>
+    cases hl : s.lib with
+    | none => exact ⟨.load, by simp [actsAt], by simp, by simp [step, hp, hl]⟩
+    | some f =>
+      by_cases hc : f.complete = true
+      · exact ⟨.load, by simp [actsAt], by simp, by simp [step, hp, hl, hc]⟩
+      · exact ⟨.load, by simp [actsAt], by simp, by simp [step, hp, hl, hc]⟩
+  case done r => simp [Pc.finished] at hf
+  case dead => simp [Pc.finished] at hf
 
 end TsVerif.C19
